@@ -35,7 +35,7 @@ ASSUMPTIONS = [
     "graphs that cannot be hashed at all (List[Path]) are not generated",
 ]
 MIN_CLASSES = {
-    "quick": {"cycle": 50, "shared": 100, "sealed-cycle": 20, "task-output-used": 50, "cross-process": 50, "golden": 100},
+    "quick": {"cycle": 50, "shared": 100, "sealed-cycle": 20, "task-output-used": 50, "cross-process": 50, "cross-process:>=2-pre-tasks": 60, "golden": 100},
     "thorough": {"cycle": 500, "shared": 1000, "sealed-cycle": 200},
 }
 MAX_NODES = {"quick": 6, "thorough": 10}
@@ -229,7 +229,11 @@ def remote_ids(ctx, hashseed, bp, variant):
 def xproc_cases(ctx):
     @st.composite
     def _cases(draw):
-        return {"bp": draw(bpl.blueprints(max_nodes=MAX_NODES[ctx.tier])), "variant": draw(st.one_of(st.none(), variants()))}
+        # sets and dicts keyed by strings/bytes are where the string-hash seed can leak: more
+        # lightweight tasks, several distinct pre-tasks per configuration, more init tasks
+        weights = [(c, w * 3 if c == "LW" else w) for c, w in bpl.CLASS_WEIGHTS]
+        bp = draw(bpl.blueprints(max_nodes=MAX_NODES[ctx.tier] + 2, min_nodes=3, weights=weights, pre_pct=60))
+        return {"bp": bp, "variant": draw(st.one_of(st.none(), variants()))}
 
     return _cases()
 
@@ -253,6 +257,8 @@ def prop_xproc(ctx, case):
                 f"{os.environ.get('PYTHONHASHSEED')}) {[base[i] for i in bad]}",
             )
     classes = bpl.describe(bp) + ["cross-process"]
+    if any(len(nd.get("pre") or []) >= 2 for nd in bp["nodes"]):
+        classes.append("cross-process:>=2-pre-tasks")
     ctx.record(len(bp["nodes"]) >= 2 and any(c in classes for c in ("shared", "cycle", "task-output-used", "container>=2")), classes)
 
 
@@ -292,7 +298,7 @@ def prop_golden(ctx, case):
 
 PARTS = [
     Part("variants", prop_variants, strategy=cases, quick=9600, thorough=96000),
-    Part("cross-process", prop_xproc, strategy=xproc_cases, quick=480, thorough=6000, shards=4),
+    Part("cross-process", prop_xproc, strategy=xproc_cases, quick=640, thorough=8000, shards=4),
     Part("golden", prop_golden, enumerate=golden_enumerate),
 ]
 TIMEOUT = {"quick": 600, "thorough": 3600}
